@@ -1,12 +1,22 @@
 """C05 -- atoms, bonds, coordinates and charges stay aligned under every edit history.
 
-Tie H: edit histories (random, length <= 40, and bounded-exhaustive short ones over an 18-letter
+Tie H: edit histories (random, length <= 40, and bounded-exhaustive short ones over a 20-letter
 alphabet) are driven through the REAL Molecule / Structure API starting from empty, mol2-/CDXML-loaded
 and cloned molecules.  After EVERY step the public accessors (atoms, bonds, coords rows, atomic_charges,
 get_atom_index, parent, idx) are read, keyed by object identity (id() -> dense names in creation
 order), and written as Coq terms; `check_case` of Model/MolEdit.v replays the history in the model
 inside Coq (vm_compute) and must reproduce every observation.  The theorems of Props/C05.v are about
 those very definitions.
+
+Shared Atom objects (second family): the same histories interleaved with (a) bond operations performed
+through a Substructure view of the molecule (connect / append_bond(s) / extend_bonds / del_bond on
+`mol.substructure(...)` or `mol.heavy`, designators resolved against the view) and (b) ADOPTIONS of some of the
+molecule's Atom objects by another container that lists them without copying (Promolecule/Connectivity/
+Structure/Molecule([atoms]), other.append_atom(a), other.add_atom(a, c)), which re-points their parent; the
+container is kept alive or dropped (parent is a weak reference).  The model (xstep in Model/MolEdit.v)
+says: neither changes the molecule, and every later operation decides membership from the atom list.
+A third, oracle-only family drives the same bond operations through the Conformer views of a
+ConformerEnsemble (atom and bond lists are shared with the ensemble).
 
 Python oracle: judges the property itself on the implementation after every step (no model involved).
 """
@@ -60,6 +70,9 @@ class Driver:
         self.given = {}                     # id(atom) -> (row key, charge) it was given
         self.fresh = 0
         self.pending_given = None
+        self.keep = []                      # views / adopting containers that are kept alive
+        self.disowned = set()               # id(atom) of atoms that the HARNESS had adopted by another container
+        self.view_obs = None                # what the last view showed before / after the operation on it
 
     # -- naming
     def name_atom(self, a, probe=False):
@@ -120,8 +133,11 @@ class Driver:
         idx, gai = [], []
         for a in atoms:
             try:
-                i = a.idx
-                idx.append(-1 if i is None else int(i))
+                if a.parent is not m:       # Atom.idx asks the PARENT: not this molecule's answer
+                    idx.append(-2)
+                else:
+                    i = a.idx
+                    idx.append(-1 if i is None else int(i))
             except Exception:
                 idx.append(-1)
             try:
@@ -247,6 +263,13 @@ class Driver:
             elif k == "remove_substituent":
                 term = f"(RemoveSubst {self.sel_term(op[1])} {self.sel_term(op[2])} {opt(op[3], lambda s: Nt(self.labtok(s)))})"
                 m.remove_substituent(self.sel_py(op[1]), self.sel_py(op[2]), ap_label=op[3])
+            elif k == "sub":
+                term, call = self.prepare_view(op)
+                call()
+            elif k == "adopt":
+                _, names, route, keep = op
+                term = f"(Adopt {cq_list(P(x) for x in names)} {'OOther' if keep else 'ONone'})"
+                self.adopt(names, route, keep)
             elif k == "add_hs":
                 targets = op[1]
                 term = None            # built from what was added (see below)
@@ -284,7 +307,118 @@ class Driver:
             elif raised:
                 groups.append((PROBE0 - 1, []))  # raised (possibly half-way): the model stops at a non-member target
             term = "(AddHs " + cq_list(f"({P(t)}, {cq_list(Zt(c) for c in cs)})" for t, cs in groups) + ")"
+        if k not in ("sub", "adopt"):
+            term = f"(Own {term})"
         return term, raised, exn
+
+    # -- shared Atom objects
+    def pos(self, a):
+        for i, x in enumerate(self.m.atoms):
+            if x is a:
+                return i
+        raise ValueError("not an atom of the molecule")
+
+    def adopt(self, names, route, keep):
+        """Another container lists the named Atom objects of the molecule without copying them."""
+        import gc
+        import molli as ml
+        ats = [self.atom(x) for x in names]
+        for a in ats:
+            self.disowned.add(id(a))
+        if route.startswith("ctor:"):
+            o = getattr(ml, route[5:])(list(ats))
+        elif route == "append_atom":
+            o = ml.Promolecule()
+            for a in ats:
+                o.append_atom(a)
+        else:                                # "add_atom"
+            o = ml.Structure()
+            for a in ats:
+                o.add_atom(a, [0.0, 0.0, 0.0])
+        if keep:
+            self.keep.append(o)
+        else:
+            del o                            # reference counting frees it at once (no cycle: the back-references are weak);
+            if ats and ats[0].parent is not None:
+                gc.collect()                 # a full collection only if something still holds it (its cost grows with the heap)
+
+    def prepare_view(self, op):
+        """op = ["sub", how, pick, keep, vop]: a Substructure over the named atoms, then ONE bond operation on it.
+        Returns (coq term, thunk).  The thunk raises whatever the implementation raises."""
+        from molli.chem import Bond
+        _, how, pick, keep, vop = op
+        m = self.m
+        vk = vop[0]
+        self.view_obs = None
+        if vk == "connect":
+            vt = f"(VConnect {self.sel_term(vop[1])} {self.sel_term(vop[2])})"
+        elif vk == "append_bond":
+            vt = f"(VAppendBond {P(vop[1])} {P(vop[2])})"
+        elif vk == "append_bonds":
+            vt = "(VAppendBonds " + cq_list(f"({P(x)}, {P(y)})" for x, y in vop[1]) + ")"
+        elif vk == "del_bond" and vop[1][0] == "fresh":
+            vt = f"(VDelBond {P(vop[1][1])} {P(vop[1][2])})"
+        elif vk == "del_bond":
+            vt = None                        # needs the view
+        else:
+            raise RuntimeError("unknown op " + str(op))
+        view, err = None, None
+        try:
+            ats = [self.atom(x) for x in pick]
+            if how == "heavy":
+                view = m.heavy
+            elif how == "obj":
+                view = m.substructure(ats)
+            elif how == "gen":
+                view = m.substructure(a for a in ats)
+            else:
+                view = m.substructure([self.pos(a) for a in ats])
+        except Exception as e:
+            err = e
+        if vt is None:
+            nb = len(view.bonds) if view is not None else 0
+            if -nb <= vop[1][1] < nb:
+                b = view.bonds[vop[1][1]]
+                vt = f"(VDelBond {P(self.name_atom(b.a1, probe=True))} {P(self.name_atom(b.a2, probe=True))})"
+            else:
+                b = None
+                vt = f"(VDelBond {P(PROBE0 - 2)} {P(PROBE0 - 3)})"
+        term = f"(ViaSub {cq_list(P(x) for x in pick)} {vt})"
+
+        def call():
+            if err is not None:
+                raise err
+            if keep:
+                self.keep.append(view)
+            vo = {"cls": type(view).__name__, "op": vk, "before": [id(a) for a in view.atoms], "exc": None}
+            self.view_obs = vo
+            try:
+                if vk == "connect":
+                    view.connect(self.sel_py(vop[1]), self.sel_py(vop[2]))
+                elif vk == "append_bond":
+                    view.append_bond(Bond(self.atom(vop[1]), self.atom(vop[2])))
+                elif vk == "append_bonds":
+                    bs = [Bond(self.atom(x), self.atom(y)) for x, y in vop[1]]
+                    if vop[2] == "extend":
+                        view.extend_bonds(iter(bs))
+                    else:
+                        view.append_bonds(*bs)
+                elif vop[1][0] == "fresh":
+                    view.del_bond(Bond(self.atom(vop[1][1]), self.atom(vop[1][2])))
+                else:
+                    view.del_bond(b if b is not None else Bond(self.atom(PROBE0 - 2), self.atom(PROBE0 - 3)))
+            except Exception as e:
+                vo["exc"] = type(e).__name__
+                raise
+            finally:
+                vo["after"] = [id(a) for a in view.atoms]
+                inside = set(vo["after"])
+                vo["dangling"] = sum(1 for x in view.bonds if id(x.a1) not in inside or id(x.a2) not in inside)
+                try:
+                    vo["rows"] = int(self.np.asarray(view.coords).shape[0])
+                except Exception as e:
+                    vo["rows"] = type(e).__name__
+        return term, call
 
 
 # ------------------------------------------------------------------ the oracle (property judged on the implementation)
@@ -322,6 +456,12 @@ def judge(drv, before, after, op, raised):
     if len({id(b) for b in after["bonds"]}) != len(after["bonds"]):
         out.append(("C05:bonds:duplicate-object", f"after {k}: the same Bond object occurs twice in bonds"))
     for i, (a, o) in enumerate(zip(after["atoms"], after["aown"])):
+        if id(a) in drv.disowned:
+            # the harness had this Atom object adopted by another container: what its parent pointer (and hence
+            # Atom.idx) says is that container's business; the molecule's own lookup must still be right
+            if after["gai"][i] != i:
+                out.append(("C05:idx", f"after {k}: adopted atom at position {i} has get_atom_index={after['gai'][i]}"))
+            continue
         if o != "OThis":
             out.append(("C05:parent:atom", f"after {k}: atom #{drv.an[id(a)]} reports parent {o}"))
         if after["idx"][i] != i or after["gai"][i] != i:
@@ -395,9 +535,29 @@ def judge(drv, before, after, op, raised):
         if not okk:
             out.append(("C05:add_hs:effect", f"{op}: something other than new hydrogens, each bonded to an existing atom, was changed"))
     if k == "add_hs" and raised and not same and (op[1] is None or len(op[1]) < 2):
-        out.append(("C05:failed-op-changed-state:add_hs", f"{op} raised but the molecule was modified"))
+        # no arguments = every atom of the molecule: reported under its own signature (a later atom can fail after
+        # earlier ones were completed, like an explicit multi-target call)
+        out.append(("C05:failed-op-changed-state:add_hs" + (":all-atoms" if op[1] is None else ""),
+                    f"{op} raised but the molecule was modified"))
     if k in ("connect", "append_bond", "append_bonds", "del_bond") and ids_after != [id(a) for a in before["atoms"]]:
         out.append((f"C05:bond-op-changed-atoms:{k}", f"{op}: a bond operation changed the atom list"))
+    if k in ("sub", "adopt") and (ids_after != [id(a) for a in before["atoms"]] or before["rows"] != after["rows"]
+                                  or before["q"] != after["q"]):
+        what = f"sub.{op[4][0]}" if k == "sub" else "adopt"
+        out.append((f"C05:bond-op-changed-atoms:{what}", f"{op}: " + ("a bond operation through a Substructure view" if k == "sub"
+                    else "listing atoms in another container") + " changed the atoms, rows or charges of the molecule"))
+    if k == "sub" and drv.view_obs is not None and "after" in drv.view_obs:
+        vo = drv.view_obs
+        tag = f"{vo['cls']}.{vo['op']}"
+        if vo["after"] != vo["before"]:
+            out.append((f"C05:view:bond-op-changed-atoms:{tag}", f"{op}: the view listed {len(vo['before'])} atoms before and "
+                        f"{len(vo['after'])} after a bond operation on it"))
+        if len(set(vo["after"])) != len(vo["after"]) and len(set(vo["before"])) == len(vo["before"]):
+            out.append((f"C05:view:duplicate-atom:{tag}", f"{op}: the view lists the same Atom object twice"))
+        if vo["rows"] != len(vo["after"]):
+            out.append((f"C05:view:rows!=atoms:{tag}", f"{op}: the view lists {len(vo['after'])} atoms and shows {vo['rows']} coordinate rows"))
+        if vo["dangling"]:
+            out.append((f"C05:view:bond:dangling-endpoint:{tag}", f"{op}: {vo['dangling']} bond(s) of the view have an end outside the view"))
     return out
 
 
@@ -455,6 +615,161 @@ def view_edit_checks():
                             + f" left the parent with {na} atoms, coords {after[1]}, charges {after[2]} (before: {len(before[0])}, {before[1]})",
                             {"kind": "view"}))
     return out, n
+
+
+# ------------------------------------------------------------------ Conformer views of an ensemble (oracle only)
+ENS_SRCS = ["pentane_confs_mol2", "dmf_mol2:3", "benzene_mol2:2", "dummy_mol2:4", "fxyl_mol2:2"]
+
+
+def make_ens(src):
+    import molli as ml
+    if ":" in src:
+        name, k = src.split(":")
+        return ml.ConformerEnsemble(ml.Molecule.load_mol2(str(getattr(ml.files, name))), n_conformers=int(k))
+    return ml.ConformerEnsemble.load_mol2(str(getattr(ml.files, src)))
+
+
+def gen_ens_op(rng, n, nc, nb):
+    def sel():
+        r = rng.random()
+        if r < 0.45:
+            return ["obj", rng.randrange(n)]
+        if r < 0.85:
+            return ["idx", rng.randrange(n)]
+        if r < 0.93:
+            return ["idx", rng.randrange(n) - n]
+        return rng.choice([["idx", n + 1], ["obj", -1]])       # out of range / an Atom that is not in the ensemble
+    z = rng.random()
+    if z < 0.40:
+        vop = ["connect", sel(), sel()]
+    elif z < 0.58:
+        vop = ["append_bond", rng.randrange(n), rng.randrange(n)]
+    elif z < 0.78:
+        vop = ["append_bonds", [[rng.randrange(n), rng.randrange(n)] for _ in range(rng.randint(0, 3))], rng.choice(["append", "extend"])]
+    elif nb and rng.random() < 0.8:
+        vop = ["del_bond", ["pos", rng.randrange(nb)]]
+    else:
+        vop = ["del_bond", ["fresh", rng.randrange(n), rng.randrange(n)]]
+    if rng.random() < 0.75:
+        return ["conf", rng.randrange(nc), rng.choice(["item", "item", "iter", "slice"]), rng.random() < 0.5, vop]
+    return ["ens", vop]
+
+
+def run_ens_history(src, ops):
+    """Bond operations through Conformer views (and on the ensemble itself).  A bond operation never changes the
+    atoms: after every step the ensemble has one entry per atom, one coordinate row and one charge per atom in
+    every conformer, every atom reports the ensemble and its index, every bond joins two of its atoms.
+    Returns (findings [(sig, text, step)], stats [(key, exception name)])."""
+    import numpy as np
+    from molli.chem import Atom, Bond
+    ens = make_ens(src)
+    atoms0 = list(ens.atoms)
+    stray = Atom("He")
+    nc = ens.n_conformers
+    keepers, findings, stats = [], [], []
+
+    def at(i):
+        return stray if i < 0 else atoms0[i]
+
+    def py(sel):
+        return at(sel[1]) if sel[0] == "obj" else int(sel[1])
+
+    def judge_ens(step, via, vk, raised, before):
+        out = []
+        atoms = list(ens.atoms)
+        n = len(atoms)
+        if before is not None and [id(a) for a in atoms] != before[0]:
+            out.append((f"C05:ens:bond-op-changed-atoms:{via}.{vk}", f"the ensemble listed {len(before[0])} atoms before and {n} after"))
+        if len({id(a) for a in atoms}) != n:
+            out.append(("C05:ens:atoms:duplicate-object", "the same Atom object occurs twice in the atoms of the ensemble"))
+        cs, qs = np.asarray(ens.coords).shape, np.asarray(ens.atomic_charges).shape
+        if cs != (nc, n, 3):
+            out.append(("C05:ens:rows:coords!=atoms", f"{n} atoms but coords has shape {cs}"))
+        if qs != (nc, n):
+            out.append(("C05:ens:rows:charges!=atoms", f"{n} atoms but atomic_charges has shape {qs}"))
+        for i, a in enumerate(atoms):
+            if a.parent is not ens:
+                out.append(("C05:ens:parent:atom", f"atom at position {i} reports parent {a.parent!r}"))
+                break
+            if a.idx != i:
+                out.append(("C05:ens:idx", f"atom at position {i} reports idx={a.idx}"))
+                break
+        inside = {id(a) for a in atoms}
+        bonds = list(ens.bonds)
+        if any(id(b.a1) not in inside or id(b.a2) not in inside for b in bonds):
+            out.append(("C05:ens:bond:dangling-endpoint", "a bond of the ensemble has an end that is not one of its atoms"))
+        if len({id(b) for b in bonds}) != len(bonds):
+            out.append(("C05:ens:bonds:duplicate-object", "the same Bond object occurs twice in the bonds of the ensemble"))
+        for k in range(nc):
+            c = ens[k]
+            shp = (c.n_atoms, np.asarray(c.coords).shape, np.asarray(c.atomic_charges).shape)
+            if shp != (n, (n, 3), (n,)):
+                out.append(("C05:ens:conformer-shape", f"conformer {k}: n_atoms, coords, charges = {shp} for {n} atoms"))
+                break
+        if raised and before != ([id(a) for a in atoms], [id(b) for b in bonds]):
+            out.append((f"C05:ens:failed-op-changed-state:{via}.{vk}", "the operation raised but the ensemble was modified"))
+        return [(sg, f"[{src}] step {step} {via}.{vk}: {tx}", step) for sg, tx in out]
+
+    findings += judge_ens(-1, "start", "none", False, None)
+    for step, op in enumerate(ops):
+        if op[0] == "conf":
+            _, k, getter, keep, vop = op
+            tgt = ens[k] if getter == "item" else (list(ens)[k] if getter == "iter" else ens[k:k + 1][0])
+            if keep:
+                keepers.append(tgt)
+            via = "Conformer"
+        else:
+            vop, tgt, via = op[1], ens, "ConformerEnsemble"
+        vk = vop[0]
+        before = ([id(a) for a in ens.atoms], [id(b) for b in ens.bonds])
+        exn = None
+        try:
+            if vk == "connect":
+                tgt.connect(py(vop[1]), py(vop[2]))
+            elif vk == "append_bond":
+                tgt.append_bond(Bond(at(vop[1]), at(vop[2])))
+            elif vk == "append_bonds":
+                bs = [Bond(at(x), at(y)) for x, y in vop[1]]
+                if vop[2] == "extend":
+                    tgt.extend_bonds(iter(bs))
+                else:
+                    tgt.append_bonds(*bs)
+            elif vop[1][0] == "pos":
+                tgt.del_bond(tgt.bonds[vop[1][1]])
+            else:
+                tgt.del_bond(Bond(at(vop[1][1]), at(vop[1][2])))
+        except Exception as e:
+            exn = type(e).__name__
+        tgt = None
+        stats.append((f"{via}.{vk}", exn))
+        findings += judge_ens(step, via, vk, exn is not None, before)
+    return findings, stats
+
+
+def ensemble_family(ctx, rep):
+    rng = ctx.rng
+    found = False
+    for _ in range(2500 if ctx.thorough else 120):
+        src = rng.choice(ENS_SRCS)
+        ens = make_ens(src)
+        n, nc, nb = ens.n_atoms, ens.n_conformers, ens.n_bonds
+        ops = []
+        for _ in range(rng.randint(2, 10)):
+            ops.append(gen_ens_op(rng, n, nc, nb))      # nb: positions valid at the start (later ones may raise IndexError)
+        findings, stats = run_ens_history(src, ops)
+        rep.case(key=json.dumps(["ens", src, ops], sort_keys=True) if any(e is None for _, e in stats) else None)
+        rep.count("family:ensemble-views")
+        rep.count("ens:start:" + src)
+        for k, e in stats:
+            rep.count(f"ens:op:{k}:" + ("ok" if e is None else e))
+        seen = set()
+        for sig, text, step in findings:
+            if sig in seen:
+                continue
+            seen.add(sig)
+            found = True
+            rep.violate(sig, text, {"kind": "ens", "src": src, "ops": ops[:step + 1]})
+    return found
 
 
 # ------------------------------------------------------------------ start states
@@ -591,9 +906,160 @@ def gen_op(drv, rng):
     raise AssertionError(k)
 
 
-# the 18-letter alphabet of the bounded-exhaustive enumeration; letters are resolved against the current state
+# ---- shared Atom objects: bond operations through a Substructure view, adoption by another container
+ADOPT_ROUTES = ["ctor:Promolecule", "ctor:Connectivity", "ctor:Structure", "ctor:Molecule", "append_atom", "add_atom"]
+
+
+def gen_view_sel(drv, rng, pick):
+    """A designator as the VIEW resolves it (mostly valid)."""
+    m = drv.m
+    names = [drv.an[id(a)] for a in m.atoms]
+    r = rng.random()
+    if r < 0.80 and pick:
+        z = rng.random()
+        i = rng.randrange(len(pick))
+        if z < 0.5:
+            return ["obj", pick[i]]
+        if z < 0.8:
+            return ["idx", i]
+        if z < 0.9:
+            return ["idx", i - len(pick)]
+        a = drv.ao[pick[i]]
+        return ["label", a.label] if a.label is not None else ["elem", int(a.element)]
+    z = rng.random()
+    outside = [x for x in names if x not in pick]
+    if z < 0.45 and outside:
+        return ["obj", rng.choice(outside)]          # an atom of the molecule that the view does not list: ValueError
+    if z < 0.75:
+        return ["idx", rng.choice([len(pick), len(pick) + 2, -len(pick) - 1])]
+    if z < 0.9:
+        return ["obj", drv.next_probe + 1]
+    return ["label", "no-such-label"]
+
+
+def gen_view_op(drv, rng):
+    m = drv.m
+    names = [drv.an[id(a)] for a in m.atoms]
+    how = rng.choice(["idx", "idx", "obj", "gen", "heavy"])
+    pick = None
+    if how == "heavy":
+        pick = [drv.an[id(a)] for a in m.atoms if int(a.element) != 1]
+        if not pick:
+            how = "idx"
+    if how != "heavy":
+        pick = rng.sample(names, min(len(names), rng.randint(1, 6)))
+        if drv.disowned and rng.random() < 0.5:      # prefer views that list an adopted atom
+            dis = [x for x in names if id(drv.ao[x]) in drv.disowned]
+            if dis and not any(x in pick for x in dis):
+                pick[rng.randrange(len(pick))] = rng.choice(dis)
+    keep = rng.random() < 0.5
+    z = rng.random()
+    if z < 0.40:
+        vop = ["connect", gen_view_sel(drv, rng, pick), gen_view_sel(drv, rng, pick)]
+    elif z < 0.58:
+        vop = ["append_bond", rng.choice(pick), rng.choice(pick)]
+    elif z < 0.78:
+        vop = ["append_bonds", [[rng.choice(pick), rng.choice(pick)] for _ in range(rng.randint(0, 3))],
+               rng.choice(["append", "extend"])]
+    else:
+        inside = set(pick)
+        vb = [b for b in m.bonds if drv.an.get(id(b.a1)) in inside and drv.an.get(id(b.a2)) in inside]
+        r = rng.random()
+        if vb and r < 0.5:
+            vop = ["del_bond", ["pos", rng.randrange(len(vb))]]
+        elif vb and r < 0.8:
+            b = rng.choice(vb)
+            e = [drv.an[id(b.a1)], drv.an[id(b.a2)]]
+            rng.shuffle(e)
+            vop = ["del_bond", ["fresh", e[0], e[1]]]
+        else:
+            vop = ["del_bond", ["fresh", rng.choice(pick), rng.choice(names)]]
+    return ["sub", how, pick, keep, vop]
+
+
+def gen_adopt(drv, rng):
+    m = drv.m
+    names = [drv.an[id(a)] for a in m.atoms]
+    some = rng.sample(names, min(len(names), rng.randint(1, 3)))
+    return ["adopt", some, rng.choice(ADOPT_ROUTES), rng.random() < 0.5]
+
+
+def gen_touch(drv, rng):
+    """An ordinary edit of the molecule that involves an atom which reports another parent."""
+    m = drv.m
+    n = m.n_atoms
+    names = [drv.an[id(a)] for a in m.atoms]
+    dis = [x for x in names if id(drv.ao[x]) in drv.disowned]
+    if not dis:
+        return gen_op(drv, rng)
+    x, y = rng.choice(dis), rng.choice(names)
+    if rng.random() < 0.5:
+        x, y = y, x
+    z = rng.random()
+    if z < 0.30:
+        def form(v):
+            return ["obj", v] if rng.random() < 0.6 else ["idx", drv.pos(drv.ao[v]) - (n if rng.random() < 0.3 else 0)]
+        return ["connect", form(x), form(y)]
+    if z < 0.50:
+        return ["append_bond", x, y]
+    if z < 0.72:
+        return ["append_bonds", [[x, y]] + [[rng.choice(names), rng.choice(names)] for _ in range(rng.randint(0, 2))],
+                rng.choice(["append", "extend"])]
+    if z < 0.82:
+        return ["del_atom", rng.choice([["obj", x], ["idx", drv.pos(drv.ao[x])]])]
+    if z < 0.92:
+        return ["add_hs", [x]]
+    nb = [b for b in m.bonds if drv.an[id(b.a1)] in (x, y) or drv.an[id(b.a2)] in (x, y)]
+    if nb:
+        b = rng.choice(nb)
+        return ["remove_substituent", ["obj", drv.an[id(b.a1)]], ["obj", drv.an[id(b.a2)]], None]
+    return ["connect", ["obj", x], ["obj", y]]
+
+
+def gen_op_shared(drv, rng):
+    n = drv.m.n_atoms
+    z = rng.random()
+    if n >= 1 and z < 0.22:
+        return gen_view_op(drv, rng)
+    if n >= 1 and z < 0.34:
+        return gen_adopt(drv, rng)
+    if n >= 1 and z < 0.52 and drv.disowned:
+        return gen_touch(drv, rng)
+    return gen_op(drv, rng)
+
+
+def _named(op):
+    """Atom names an ordinary op mentions by object."""
+    out = []
+    def walk(x):
+        if isinstance(x, list):
+            if len(x) == 2 and x[0] == "obj":
+                out.append(x[1])
+            else:
+                for y in x:
+                    walk(y)
+    walk(op[1:])
+    if op[0] in ("append_bond",):
+        out += [op[1], op[2]]
+    if op[0] == "append_bonds":
+        out += [v for pr in op[1] for v in pr]
+    if op[0] == "add_hs" and op[1]:
+        out += list(op[1])
+    return out
+
+
+def op_key(op):
+    if op[0] == "sub":
+        return "sub." + op[4][0]
+    if op[0] == "adopt":
+        return "adopt." + op[2] + (":kept" if op[3] else ":dropped")
+    return op[0]
+
+
+# the 20-letter alphabet of the bounded-exhaustive enumeration; letters are resolved against the current state
 ALPHABET = ["add_q", "add_noq", "add_bad", "new", "del_idx0", "del_objlast", "del_neg1", "del_label0", "del_elemlast",
-            "conn_idx", "conn_obj", "app_bond", "app_bonds", "delb_first", "delb_eq_last", "rs_obj", "rs_rev", "add_h0"]
+            "conn_idx", "conn_obj", "app_bond", "app_bonds", "delb_first", "delb_eq_last", "rs_obj", "rs_rev", "add_h0",
+            "sub_conn", "adopt_last"]
 
 
 def resolve_letter(drv, rng, L):
@@ -647,6 +1113,11 @@ def resolve_letter(drv, rng, L):
         return ["remove_substituent", ["obj", last], ["idx", 0], None]
     if L == "add_h0":
         return ["add_hs", [first]] if n else ["add_hs", None]
+    if L == "sub_conn":        # connect the first and the last atom THROUGH a view that lists exactly those two
+        pick = [] if n == 0 else ([first] if first == last else [first, last])
+        return ["sub", "idx", pick, False, ["connect", ["idx", 0], ["idx", -1]]]
+    if L == "adopt_last":      # a Promolecule built from the last Atom object (not a copy), dropped at once
+        return ["adopt", [last], "ctor:Promolecule", False] if n else ["sub", "idx", [], False, ["append_bonds", [], "append"]]
     raise AssertionError(L)
 
 
@@ -702,7 +1173,7 @@ def run_history(spec, ops_or_gen, rng, want_views=False):
                 findings.append((s, t, i))
         steps.append(f"({term}, {drv.obs_term(raised, after)})")
         done.append(op)
-        stats.append((op[0], exn))
+        stats.append((op_key(op), exn))
         snap = after
         i += 1
     case = f"({init},\n  {cq_list(steps)})"
@@ -753,6 +1224,17 @@ def plan(ctx):
         big = spec["src"] in ("dendrobine_mol2", "isornitrate_mol2", "box_backbone_mol2")
         length = rng.randint(3, 14) if big else rng.randint(5, 40)
         jobs.append((spec, "random", length))
+    for _ in range(5000 if ctx.thorough else 300):          # shared Atom objects: views and adoption interleaved
+        kind = "mol" if rng.random() < 0.7 else "struct"
+        z = rng.random()
+        if z < 0.08:
+            spec = {"src": "empty", "kind": kind}
+        elif z < 0.18:
+            spec = {"src": "cdxml:" + rng.choice(cd_keys), "kind": kind, "clone": rng.random() < 0.3}
+        else:
+            spec = {"src": rng.choices(MOL2_STARTS, MOL2_WEIGHTS)[0], "kind": kind, "clone": rng.random() < 0.35}
+        big = spec["src"] in ("dendrobine_mol2", "isornitrate_mol2", "box_backbone_mol2")
+        jobs.append((spec, "shared", rng.randint(3, 10) if big else rng.randint(4, 25)))
     depth = 3 if ctx.thorough else 2
     starts = [{"src": "empty", "kind": "mol"}, {"src": "empty", "kind": "struct"},
               {"src": "dummy_mol2", "kind": "mol"}, {"src": "dummy_mol2", "kind": "struct"},
@@ -766,11 +1248,16 @@ def plan(ctx):
 
 def run(ctx, rep):
     rep.rule = ("edit histories through the public API of Molecule / Structure from empty, mol2-/CDXML-loaded and cloned "
-                "molecules: random (length 5..40) and ALL words of length <= 2 (quick) / 3 (thorough) over an 18-letter "
+                "molecules: random (length 5..40) and ALL words of length <= 2 (quick) / 3 (thorough) over a 20-letter "
                 "alphabet from 5 small start states; every step is observed (atoms, bonds, coordinate rows, charges, "
                 "get_atom_index, parent, idx keyed by object identity) and replayed by the Coq model; a history is "
                 "non-trivial when at least one operation succeeded and one atom or bond was added or removed; distinct by "
-                "(start, operation list)")
+                "(start, operation list).  Shared Atom objects: the same random histories interleaved with bond operations "
+                "through one-shot Substructure views (built from indices / Atom objects / a generator / .heavy, kept or "
+                "dropped) and with adoptions of 1..3 atoms by another container (6 routes, kept or dropped), followed by "
+                "directed edits naming the adopted atoms; two more letters (view connect, adoption) in the word alphabet.  "
+                "Ensembles (oracle only): bond operations through Conformer views (ens[k] / iteration / slice) and on the "
+                "ensemble, 5 ensembles")
     rep.trusted += ["harness/c05.py: driver, identity->name renaming (strong references kept, so id() is never reused), "
                     "row/charge/label token maps, Coq literal emission",
                     "CPython 3.12 + numpy executing molli/chem/{atom,bond,geometry,structure,molecule}.py",
@@ -779,8 +1266,13 @@ def run(ctx, rep):
                         "object twice is outside the alphabet)",
                         "append_bond(s) only between atoms of the molecule (foreign atoms: recorded finding, replayed separately)",
                         "add_implicit_hydrogens: only the structural effect is modelled; how many hydrogens and where is C16",
-                        "Conformer / Substructure: structure edits are not defined on the views (add/del raise, now without side "
-                        "effect); the oracle checks that a Substructure shows the parent's rows"]
+                        "Conformer / Substructure: atom edits are not defined on the views (add/del raise, now without side "
+                        "effect); the oracle checks that a Substructure shows the parent's rows",
+                        "bond operations through a Substructure view name atoms of the view only (an atom outside the view is "
+                        "adopted by the view: the recorded finding again); one operation per view",
+                        "an atom adopted by another container legitimately reports that container (or None) as parent and Atom.idx "
+                        "answers for that container: not judged for those atoms; everything else is",
+                        "ensembles: whether a bond added through a Conformer reports the ensemble or the Conformer as parent is not judged"]
     import warnings
     warnings.simplefilter("ignore")
     ok, out, where = vlib.build_props(ctx, rep, "C05")
@@ -791,16 +1283,31 @@ def run(ctx, rep):
         if mode == "random":
             L = payload
             gen = (lambda drv, i, L=L: gen_op(drv, rng) if i < L else None)
+        elif mode == "shared":
+            L = payload
+            gen = (lambda drv, i, L=L: gen_op_shared(drv, rng) if i < L else None)
         else:
             word = payload
             gen = (lambda drv, i, word=word: resolve_letter(drv, rng, word[i]) if i < len(word) else None)
-        case, done, findings, stats = run_history(spec, gen, rng, want_views=(mode == "random"))
+        case, done, findings, stats = run_history(spec, gen, rng, want_views=(mode != "word"))
         cases.append(case)
         meta.append((spec, done))
         nontrivial = any(e is None for k, e in stats)
-        key = json.dumps([spec, done if mode == "random" else payload], sort_keys=True)
-        rep.case(key=key if nontrivial else None, sample={"start": spec, "ops": done[:4]} if mode == "random" else None)
+        key = json.dumps([spec, done if mode != "word" else payload], sort_keys=True)
+        rep.case(key=key if nontrivial else None, sample={"start": spec, "ops": done[:4]} if mode != "word" else None)
+        rep.count("family:" + {"random": "own-edits", "shared": "shared-atoms", "word": "words"}[mode])
         rep.count("start:" + spec["src"].split(":")[0] + (":clone" if spec.get("clone") else "") + ":" + spec["kind"])
+        if mode == "shared":
+            for o in done:
+                if o[0] == "sub":
+                    rep.count("view:built-from:" + o[1] + (":kept" if o[3] else ":dropped"))
+            touched, dis = 0, set()
+            for o in done:                       # ordinary edits that name an atom adopted earlier in the history
+                if o[0] == "adopt":
+                    dis.update(o[1])
+                elif o[0] != "sub" and dis and any(x in dis for x in _named(o)):
+                    touched += 1
+            rep.count("shared:edits-naming-an-adopted-atom", touched)
         for (k, e), o in zip(stats, done):
             rep.count(f"op:{k}:" + ("ok" if e is None else e))
             if k == "del_atom":
@@ -814,6 +1321,8 @@ def run(ctx, rep):
             rep.violate(sig, text + f" [start={spec}, step {step}]", {"kind": "history", "spec": spec, "ops": done[:step + 1] if step >= 0 else []})
     for sig, text, rp in confirm_known():
         rep.violate(sig, text, rp)
+    if ensemble_family(ctx, rep):
+        found = True
     vfound, nv = view_edit_checks()
     for sig, text, rp in vfound:
         found = True
@@ -852,6 +1361,12 @@ def replay(ctx, data):
     elif data.get("kind") == "view":
         for sig, text, rp in view_edit_checks()[0]:
             out.append(vlib.Violation(sig, text))
+    elif data.get("kind") == "ens":
+        seen = set()
+        for sig, text, step in run_ens_history(data["src"], data["ops"])[0]:
+            if sig not in seen:
+                seen.add(sig)
+                out.append(vlib.Violation(sig, text))
     elif data.get("kind") == "history":
         _, _, findings, _ = run_history(data["spec"], data["ops"], ctx.rng, want_views=True)
         seen = set()
